@@ -355,107 +355,101 @@ Qed.
 
 Lemma parse_int32_shape : forall sg d ds,
   (sg = [] \/ sg = [43] \/ sg = [45]) -> forallb is_digit (d :: ds) = true ->
-  (Z.of_N (digits_val (d :: ds)) <= 100000)%Z ->
   parse_int32 (sg ++ d :: ds) =
-  Some (if match sg with [45] => true | _ => false end
-        then (- Z.of_N (digits_val (d :: ds)))%Z else Z.of_N (digits_val (d :: ds))).
+  let z := if match sg with [45] => true | _ => false end
+           then (- Z.of_N (digits_val (d :: ds)))%Z else Z.of_N (digits_val (d :: ds)) in
+  if ((-2147483648 <=? z) && (z <=? 2147483647))%Z then Some z else None.
 Proof.
-  intros sg d ds Hsg Hd Hr.
+  intros sg d ds Hsg Hd.
   assert (Hd0 : is_digit d = true) by (cbn in Hd; apply andb_true_iff in Hd; tauto).
   assert (d <> 45 /\ d <> 43) as [N45 N43] by (unfold is_digit in Hd0; lia).
   unfold parse_int32. destruct Hsg as [->|[->| ->]]; cbn [app].
   - destruct (N.eqb_spec d 45); [contradiction|]. destruct (N.eqb_spec d 43); [contradiction|].
-    rewrite Hd.
-    destruct ((-2147483648 <=? Z.of_N (digits_val (d :: ds)))%Z && (Z.of_N (digits_val (d :: ds)) <=? 2147483647)%Z) eqn:E;
-      [reflexivity|lia].
-  - change (43 =? 45) with false. change (43 =? 43) with true. cbv iota. rewrite Hd.
-    destruct ((-2147483648 <=? Z.of_N (digits_val (d :: ds)))%Z && (Z.of_N (digits_val (d :: ds)) <=? 2147483647)%Z) eqn:E;
-      [reflexivity|lia].
-  - change (45 =? 45) with true. cbv iota. rewrite Hd.
-    destruct ((-2147483648 <=? - Z.of_N (digits_val (d :: ds)))%Z && (- Z.of_N (digits_val (d :: ds)) <=? 2147483647)%Z) eqn:E;
-      [reflexivity|lia].
+    rewrite Hd. reflexivity.
+  - change (43 =? 45) with false. change (43 =? 43) with true. cbv iota. rewrite Hd. reflexivity.
+  - change (45 =? 45) with true. cbv iota. rewrite Hd. reflexivity.
 Qed.
+
+Ltac zb_all :=
+  repeat match goal with
+  | |- context [(?a <=? ?b)%Z] => destruct (Z.leb_spec a b)
+  end; cbn [andb].
 
 Lemma apd_json : forall ip ftxt fp etxt e,
   wf_num {| jneg := false; jint := ip; jfrac := fp; jexp := e |} = true ->
   frac_shape ftxt fp -> exp_shape etxt e ->
-  num_in_range {| jneg := false; jint := ip; jfrac := fp; jexp := e |} = true ->
   apd_set_string (ip ++ ftxt ++ exp_buf etxt) =
-  CFin {| dneg := false; dcoeff := digits_val (ip ++ fp);
-          dexp := (match e with Some z => z | None => 0 end - Z.of_nat (length fp))%Z |}.
+  if num_in_range {| jneg := false; jint := ip; jfrac := fp; jexp := e |}
+  then Some {| dneg := false; dcoeff := digits_val (ip ++ fp);
+               dexp := (match e with Some z => z | None => 0 end - Z.of_nat (length fp))%Z |}
+  else None.
 Proof.
-  intros ip ftxt fp etxt e Hwf Hf He Hr. unfold wf_num in Hwf. cbn [jint jfrac] in Hwf.
+  intros ip ftxt fp etxt e Hwf Hf He. unfold wf_num in Hwf. cbn [jint jfrac] in Hwf.
   apply andb_true_iff in Hwf. destruct Hwf as [Hwf Hlz].
   apply andb_true_iff in Hwf. destruct Hwf as [Hip Hfp].
   destruct ip as [|d ds]; [discriminate|]. clear Hlz.
   assert (Hd : is_digit d = true) by (cbn in Hip; apply andb_true_iff in Hip; tauto).
   assert (d <> 45 /\ d <> 43) as [N45 N43] by (unfold is_digit in Hd; lia).
-  unfold num_in_range in Hr. cbn [jint jfrac jexp] in Hr.
-  set (ez := match e with Some z => z | None => 0%Z end) in *.
-  set (fl := Z.of_nat (length fp)) in *.
-  set (nd := Z.of_nat (length (N_digits (digits_val ((d :: ds) ++ fp))))) in *.
-  assert (Hrange : (ez <= 100000 /\ -100000 <= ez /\ fl <= 100000 /\
-                    ez - fl + nd - 1 <= 100000 /\ -100000 <= ez - fl + nd - 1)%Z).
-  { unfold max_exponent in Hr. lia. }
-  clear Hr. destruct Hrange as (R1 & R2 & R3 & R4 & R5).
+  unfold num_in_range. cbn [jint jfrac jexp].
+  set (ez := match e with Some z => z | None => 0%Z end).
   assert (Hmant101 : ~ In 101 ((d :: ds) ++ ftxt)).
   { intro Hi. apply in_app_or in Hi. destruct Hi as [Hi|Hi].
     - apply (digits_not_in 101 _ Hip eq_refl Hi).
     - inversion Hf; subst; [destruct Hi|]. destruct Hi as [Hi|Hi]; [discriminate|].
       apply (digits_not_in 101 _ Hfp eq_refl Hi). }
   assert (H46 : ~ In 46 (d :: ds)) by (apply digits_not_in; [assumption|reflexivity]).
-  (* the mantissa part, common to all cases *)
-  assert (Hm : forall exps1, forallb (fun x => (x <=? max_exponent)%Z && (- max_exponent <=? x)%Z) exps1 = true ->
-     fold_left Z.add exps1 0%Z = (if match exps1 with [] => true | _ => false end then 0 else ez)%Z ->
-     (exps1 = [] -> ez = 0%Z) ->
+  (* the mantissa part, common to all cases; exps1 is [] (then ez = 0) or [ez] *)
+  assert (Hm : forall exps1, (exps1 = [] /\ ez = 0%Z) \/ exps1 = [ez] ->
      (let '(ipp, fopt) := split_at 46 ((d :: ds) ++ ftxt) in
       let digits := ipp ++ match fopt with Some f => f | None => [] end in
       let exps := exps1 ++ match fopt with Some f => [(- Z.of_nat (length f))%Z] | None => [] end in
       match digits with
-      | [] => CNaN
+      | [] => None
       | _ => if forallb is_digit digits
-             then CFin {| dneg := false; dcoeff := digits_val digits;
-                          dexp := set_exponent (digits_val digits) exps |}
-             else CNaN
-      end) = CFin {| dneg := false; dcoeff := digits_val ((d :: ds) ++ fp); dexp := (ez - fl)%Z |}).
-  { intros exps1 Hall Hsum Hnil. inversion Hf as [|f0 fs Hfd]; subst.
-    - rewrite app_nil_r. rewrite split_at_none by assumption. cbn [app]. rewrite app_nil_r.
-      rewrite Hip. f_equal. f_equal. unfold set_exponent. rewrite app_nil_r, Hall.
-      subst nd fl. rewrite app_nil_r in *. cbn [length] in *.
-      rewrite Hsum. unfold max_exponent.
-      destruct exps1 as [|z0 zs]; [pose proof (Hnil eq_refl) as Hz|]; cbv iota;
-        match goal with |- (if ?c then _ else _) = _ => destruct c eqn:E end; lia.
+             then match set_exponent (digits_val digits) exps with
+                  | Some e0 => Some {| dneg := false; dcoeff := digits_val digits; dexp := e0 |}
+                  | None => None
+                  end
+             else None
+      end) =
+     (if ((ez <=? max_exponent) && (- max_exponent <=? ez) && (Z.of_nat (length fp) <=? max_exponent) &&
+          (ez - Z.of_nat (length fp) + Z.of_nat (length (N_digits (digits_val ((d :: ds) ++ fp)))) - 1 <=? max_exponent) &&
+          (- max_exponent <=? ez - Z.of_nat (length fp) + Z.of_nat (length (N_digits (digits_val ((d :: ds) ++ fp)))) - 1))%Z
+      then Some {| dneg := false; dcoeff := digits_val ((d :: ds) ++ fp); dexp := (ez - Z.of_nat (length fp))%Z |}
+      else None)).
+  { intros exps1 Hex. inversion Hf as [|f0 fs Hfd]; subst.
+    - rewrite !app_nil_r. rewrite split_at_none by assumption. cbn [app]. rewrite app_nil_r.
+      rewrite Hip. unfold set_exponent. rewrite app_nil_r. cbn [length]. unfold max_exponent.
+      destruct Hex as [[-> Hz]| ->]; cbn [forallb fold_left andb].
+      + rewrite Hz. zb_all; try lia; try reflexivity.
+      + zb_all; try lia; try reflexivity; f_equal; f_equal; lia.
     - rewrite split_at_app by assumption.
       assert (Hall' : forallb is_digit ((d :: ds) ++ f0 :: fs) = true) by (rewrite forallb_app, Hip, Hfd; reflexivity).
-      cbn [app] in Hall' |- *. rewrite Hall'. f_equal. f_equal.
-      unfold set_exponent. rewrite forallb_app, Hall. cbn [forallb]. fold fl.
-      assert (Hfl : ((- fl <=? max_exponent) && (- max_exponent <=? - fl))%Z = true) by (unfold max_exponent; lia).
-      rewrite Hfl. cbn [andb]. rewrite fold_left_app. cbn [fold_left]. subst nd. cbn [app] in R4, R5.
-      rewrite Hsum. unfold max_exponent.
-      destruct exps1 as [|z0 zs]; [pose proof (Hnil eq_refl) as Hz|]; cbv iota;
-        match goal with |- (if ?c then _ else _) = _ => destruct c eqn:E end; lia. }
+      cbn [app] in Hall' |- *. rewrite Hall'.
+      unfold set_exponent. unfold max_exponent.
+      set (fl := Z.of_nat (length (f0 :: fs))). set (nd := Z.of_nat (length (N_digits (digits_val (d :: ds ++ f0 :: fs))))).
+      destruct Hex as [[-> Hz]| ->]; cbn [app forallb fold_left andb].
+      + rewrite Hz. zb_all; try lia; try reflexivity; f_equal; f_equal; lia.
+      + zb_all; try lia; try reflexivity; f_equal; f_equal; lia. }
   assert (E45 : d =? 45 = false) by lia. assert (E43 : d =? 43 = false) by lia.
   unfold apd_set_string. cbn [app]. rewrite E45, E43. cbn [orb]. rewrite E45, E43. cbn [orb].
   inversion He as [|ee sg x xs Hee Hsg Hx]; subst.
   - cbn [exp_buf]. rewrite app_nil_r.
     change (d :: ds ++ ftxt) with ((d :: ds) ++ ftxt).
     rewrite split_at_none by assumption.
-    apply (Hm []); [reflexivity|reflexivity|reflexivity].
+    apply (Hm []). left. split; reflexivity.
   - cbn [exp_buf]. change (d :: ds ++ ftxt ++ 101 :: sg ++ x :: xs) with ((d :: ds) ++ ftxt ++ 101 :: sg ++ x :: xs).
     rewrite app_assoc. rewrite split_at_app by assumption.
-    assert (Hxr : (Z.of_N (digits_val (x :: xs)) <= 100000)%Z).
-    { subst ez. destruct Hsg as [->|[->| ->]]; lia. }
-    rewrite (parse_int32_shape sg x xs Hsg Hx Hxr). fold ez.
-    apply (Hm [ez]).
-    + cbn [forallb]. unfold max_exponent. lia.
-    + cbn. reflexivity.
-    + discriminate.
+    rewrite (parse_int32_shape sg x xs Hsg Hx). fold ez. cbv zeta.
+    destruct ((-2147483648 <=? ez) && (ez <=? 2147483647))%Z eqn:E32.
+    + apply (Hm [ez]). right. reflexivity.
+    + unfold max_exponent. zb_all; try lia; reflexivity.
 Qed.
 
 (* THEOREM json_number_is_cue_number: a JSON number text is a CUE number (a decimal
    literal after an optional unary minus); ParseNum says int exactly when there is
    neither fraction nor exponent; inside apd's exponent range the decimal has the
-   same coefficient and exponent. *)
+   same coefficient and exponent; outside it the literal is an error (no silent value). *)
 Theorem json_number_is_cue_literal : forall t n, parse_number t = Some (n, []) ->
   exists u buf, t = (if jneg n then [45] else []) ++ u /\
     parse_num u = PNOk 10 (negb (jnum_is_int n)) buf.
@@ -471,15 +465,16 @@ Definition cue_dec_of (n : jnum) : dec :=
   {| dneg := jneg n && negb (dcoeff (jnum_dec n) =? 0);
      dcoeff := dcoeff (jnum_dec n); dexp := dexp (jnum_dec n) |}.
 
-Theorem json_number_is_cue_number : forall t n,
-  parse_number t = Some (n, []) -> num_in_range n = true ->
-  cue_read_number t = Some (jnum_is_int n, CFin (cue_dec_of n)).
+(* the complete description of how cue reads a JSON number *)
+Theorem cue_read_json_number : forall t n, parse_number t = Some (n, []) ->
+  cue_read_number t = if num_in_range n then Some (jnum_is_int n, cue_dec_of n) else None.
 Proof.
-  intros t n H Hr. destruct (parse_number_inv _ _ H) as (ftxt & etxt & -> & Hwf & Hf & He).
+  intros t n H. destruct (parse_number_inv _ _ H) as (ftxt & etxt & -> & Hwf & Hf & He).
   assert (Hwf' : wf_num {| jneg := false; jint := jint n; jfrac := jfrac n; jexp := jexp n |} = true) by exact Hwf.
-  assert (Hr' : num_in_range {| jneg := false; jint := jint n; jfrac := jfrac n; jexp := jexp n |} = true) by exact Hr.
   pose proof (parse_num_json _ _ _ _ _ Hwf' Hf He) as Hp.
-  pose proof (apd_json _ _ _ _ _ Hwf' Hf He Hr') as Ha.
+  pose proof (apd_json _ _ _ _ _ Hwf' Hf He) as Ha.
+  change (num_in_range {| jneg := false; jint := jint n; jfrac := jfrac n; jexp := jexp n |})
+    with (num_in_range n) in Ha.
   assert (Hhead : exists d r, jint n ++ ftxt ++ etxt = d :: r /\ d <> 45).
   { unfold wf_num in Hwf. destruct (jint n) as [|d ds]; [rewrite andb_false_r in Hwf; discriminate|].
     exists d, (ds ++ ftxt ++ etxt). split; [reflexivity|].
@@ -489,21 +484,43 @@ Proof.
   { unfold jnum_is_int. destruct (jfrac n), (jexp n); reflexivity. }
   unfold cue_read_number, cue_dec_of, jnum_dec. cbn [dcoeff dexp]. destruct (jneg n).
   - cbn [app]. change (45 =? 45) with true. cbv iota. rewrite Hp. change (10 =? 10) with true. cbv iota.
-    rewrite Ha, Hint. cbn [cue_neg dcoeff dneg dexp andb negb].
+    rewrite Ha. destruct (num_in_range n); [|reflexivity]. rewrite Hint.
+    unfold cue_neg. cbn [dcoeff dneg dexp].
     destruct (digits_val (jint n ++ jfrac n) =? 0); reflexivity.
   - cbn [app]. destruct Hhead as (d & r & E & Nd). rewrite E.
     destruct (N.eqb_spec d 45); [contradiction|]. rewrite <- E. rewrite Hp.
-    change (10 =? 10) with true. cbv iota. rewrite Ha, Hint. reflexivity.
+    change (10 =? 10) with true. cbv iota. rewrite Ha. destruct (num_in_range n); [|reflexivity].
+    rewrite Hint. reflexivity.
 Qed.
 
-(* F11: outside apd's range the faithful model loses the exponent / gives NaN *)
+Theorem json_number_is_cue_number : forall t n,
+  parse_number t = Some (n, []) -> num_in_range n = true ->
+  cue_read_number t = Some (jnum_is_int n, cue_dec_of n).
+Proof. intros t n H Hr. rewrite (cue_read_json_number _ _ H), Hr. reflexivity. Qed.
+
+(* outside apd's range the literal is an error: never a silently different value, never NaN *)
+Theorem json_number_out_of_range_rejected : forall t n,
+  parse_number t = Some (n, []) -> num_in_range n = false -> cue_read_number t = None.
+Proof. intros t n H Hr. rewrite (cue_read_json_number _ _ H), Hr. reflexivity. Qed.
+
+(* hence: whenever cue reads a JSON number at all, it reads the number that is written *)
+Theorem cue_read_number_exact : forall t n k d,
+  parse_number t = Some (n, []) -> cue_read_number t = Some (k, d) ->
+  k = jnum_is_int n /\ d = cue_dec_of n.
+Proof.
+  intros t n k d H Hc. rewrite (cue_read_json_number _ _ H) in Hc.
+  destruct (num_in_range n); inversion Hc; auto.
+Qed.
+
+(* C10-exponent-range-rejected: valid JSON numbers that the faithful model refuses *)
 Theorem number_exponent_refuted :
-  (exists t n, parse_number t = Some (n, []) /\ dexp (jnum_dec n) = 100001%Z /\
-               cue_read_number t = Some (false, CFin {| dneg := false; dcoeff := 1; dexp := 0 |})) /\
-  (exists t n, parse_number t = Some (n, []) /\ cue_read_number t = Some (false, CNaN)).
+  (exists t n, parse_number t = Some (n, []) /\ dexp (jnum_dec n) = 100001%Z /\ cue_read_number t = None) /\
+  (exists t n, parse_number t = Some (n, []) /\ cue_read_number t = None /\
+               jexp n = Some 2147483648%Z).
 Proof.
   split.
   - exists [49; 101; 49; 48; 48; 48; 48; 49]. eexists. split; [vm_compute; reflexivity|].
     split; vm_compute; reflexivity.
-  - exists [49; 101; 50; 49; 52; 55; 52; 56; 51; 54; 52; 56]. eexists. split; vm_compute; reflexivity.
+  - exists [49; 101; 50; 49; 52; 55; 52; 56; 51; 54; 52; 56]. eexists. split; [vm_compute; reflexivity|].
+    split; vm_compute; reflexivity.
 Qed.
